@@ -593,3 +593,55 @@ def setup_repo_imports():
     sys.path.insert(0, rp)
     os.environ.setdefault("XONSH_XONSH_VERIF", "1")
     sys.dont_write_bytecode = True
+
+
+def run_unprivileged(fn, arg, timeout=600):
+    """Run fn(arg) in a forked child that has dropped root (uid/gid 65534) and return its (picklable)
+    result.  Permission-failure scenarios (chmod 000, unwritable dirs) need this: root bypasses them.
+    When the check does not run as root the function is simply called in a forked child as is."""
+    import pickle
+    import select
+
+    r, w = os.pipe()
+    pid = os.fork()
+    if pid == 0:
+        code = 0
+        try:
+            os.close(r)
+            if os.getuid() == 0:
+                os.setgroups([])
+                os.setgid(65534)
+                os.setuid(65534)
+                os.environ["HOME"] = "/nonexistent"
+            res = ("ok", fn(arg))
+        except BaseException as e:  # noqa: BLE001
+            res = ("exc", f"{type(e).__name__}: {e}\n{traceback.format_exc()[-1500:]}")
+            code = 1
+        try:
+            with os.fdopen(w, "wb") as f:
+                pickle.dump(res, f)
+        finally:
+            os._exit(code)
+    os.close(w)
+    chunks = []
+    deadline = time.time() + timeout
+    with os.fdopen(r, "rb") as f:
+        while True:
+            left = deadline - time.time()
+            if left <= 0:
+                os.kill(pid, 9)
+                os.waitpid(pid, 0)
+                raise InfraError("unprivileged child timed out")
+            ready, _, _ = select.select([f], [], [], min(left, 5))
+            if ready:
+                b = os.read(f.fileno(), 1 << 20)
+                if not b:
+                    break
+                chunks.append(b)
+    os.waitpid(pid, 0)
+    if not chunks:
+        raise InfraError("unprivileged child died without a result")
+    kind, val = pickle.loads(b"".join(chunks))
+    if kind == "exc":
+        raise InfraError("unprivileged child failed: " + val)
+    return val
